@@ -41,6 +41,9 @@ def build(e):
   from ml_metrics._src.chainables import lazy_fns as lf  # pylint: disable=g-import-not-at-top
   if 'c' in e:
     return e['c']
+  if 'arr' in e:
+    import numpy as np  # pylint: disable=g-import-not-at-top
+    return np.array(e['arr'])
   k = e['k']
   if k == 'call':
     fn = lf.trace(getattr(targets, e['fn']))
@@ -113,6 +116,9 @@ class Model:
   def ev(self, e):
     if 'c' in e:
       return e['c']
+    if 'arr' in e:
+      import numpy as np  # pylint: disable=g-import-not-at-top
+      return np.array(e['arr'])
     cached = e.get('cache', False)
     key = cache_key(e)
     if cached:
@@ -170,7 +176,7 @@ def _same_value(a, b):
 
 
 def _depth(e):
-  if 'c' in e:
+  if 'c' in e or 'arr' in e:
     return 0
   subs = [e.get('obj')] + list(e.get('args', [])) + [v for _, v in e.get('kwargs', [])]
   return 1 + max([_depth(s) for s in subs if s is not None] or [0])
@@ -184,6 +190,7 @@ def run_history(case):
   model = Model()
   exprs = case['exprs']
   what = f'exprs={exprs}'
+  same_objs = {}
   handles = []          # (real LazyObject, model Handle)
   seen_identity = {}    # cache key -> real object returned while the entry was live
   exceeded = False
@@ -236,6 +243,23 @@ def run_history(case):
             check(got is prev[0], 'cached-result-not-identical', f'{w}: cached expression returned a different object than before')
             retouched = retouched or exceeded
           seen_identity[key] = (got, model.fn_cache.get(key), True)
+    elif kind == 'make_same':
+      # the very same traced expression object is evaluated again (optionally through a pickle round trip, which keeps its
+      # id): expressions with array arguments are hashed by id, so only the same object can hit the cache
+      pool = case.get('arr_exprs') or []
+      if not pool:
+        continue
+      j = op[1] % len(pool)
+      e = pool[j]
+      want = model.ev(e)
+      delta_before = collections.Counter(targets.CALLS)
+      if j not in same_objs:
+        same_objs[j] = _guard(lambda: build(e), f'{w}: tracing')
+      lazy = same_objs[j]
+      if op[2]:
+        lazy = _guard(lambda: lf.pickler.loads(lf.pickler.dumps(lazy)), f'{w}: pickle round trip')
+      got = _guard(lambda: lf.maybe_make(lazy), w)
+      check(_same_value(got, want), 'value-differs-from-eager', f'{w}: lazy value {got!r}, eager value {want!r}')
     elif kind == 'clear_cache':
       lf.clear_cache()
       model.clear_cache()
@@ -336,7 +360,9 @@ def strat_history(tier):
   @st.composite
   def s(draw):
     depth = draw(st.integers(1, 4))
-    top = st.one_of(_int(depth), _int(depth), _list(depth), _inst(depth), _falsy(depth),
+    kworder = st.builds(lambda a, b, names, c: {'k': 'call', 'fn': 'kw_names', 'args': [], 'kwargs': [[names[0], a], [names[1], b]], 'cache': c},
+                        _int(1), _int(1), st.sampled_from([['zeta', 'alpha'], ['b', 'a'], ['a', 'b'], ['y', 'x']]), st.booleans())
+    top = st.one_of(_int(depth), _int(depth), _list(depth), _inst(depth), _falsy(depth), kworder,
                     st.builds(lambda a, r: {'k': 'call', 'fn': 'counted_add', 'args': [a, r]}, _int(1), _raising()))
     exprs = draw(st.lists(top, min_size=1, max_size=4))
     op = st.one_of(st.tuples(st.just('make'), st.integers(0, 3)).map(list), st.tuples(st.just('make'), st.integers(0, 3)).map(list),
@@ -352,7 +378,14 @@ def strat_history(tier):
     if tier == 'thorough' and draw(st.integers(0, 15)) == 0:
       ops.insert(draw(st.integers(0, len(ops))), ['flood_objects', draw(st.sampled_from([1023, 1024, 1030]))])
       ops.append(['deref', 0])
-    return {'exprs': exprs, 'ops': ops}
+    case = {'exprs': exprs, 'ops': ops}
+    if draw(st.integers(0, 3)) == 0:
+      case['arr_exprs'] = draw(st.lists(st.builds(
+          lambda a, k: {'k': 'call', 'fn': 'counted_arr_sum', 'args': [{'arr': a}, {'c': k}], 'cache': True},
+          st.lists(st.integers(0, 5), min_size=2, max_size=4), st.integers(0, 3)), min_size=1, max_size=2, unique_by=repr))
+      for _ in range(draw(st.integers(2, 4))):
+        ops.insert(draw(st.integers(0, len(ops))), ['make_same', draw(st.integers(0, 1)), draw(st.booleans())])
+    return case
   return s()
 
 
